@@ -573,6 +573,29 @@ func tthEncCases(c *Ctx) []json.RawMessage {
 		}
 		add(TTHCase{Mode: "enc", Str: sk, Seq: k})
 	}
+	// entries at their minimum encoded size (an empty key is legal; empty values; one-byte keys): whatever a decoder
+	// assumes about the least number of bytes per pair, these maps sit exactly on it; with and without other sections
+	for _, n := range c.PickInts([]int{1, 2, 3, 4, 5, 7, 8, 12, 16, 32, 64}, []int{1, 2, 3, 4, 5, 6, 7, 8, 9, 12, 16, 20, 32, 64, 128, 200, 256}) {
+		for _, emptyKey := range []bool{true, false} {
+			var sk []StrKV
+			for i := 0; i < n; i++ {
+				k := StrSpec{Lit: []int{1 + i%255}}
+				if i == 0 && emptyKey {
+					k = StrSpec{Lit: []int{}}
+				}
+				sk = append(sk, StrKV{K: k, V: StrSpec{Lit: []int{}}})
+			}
+			add(TTHCase{Mode: "enc", Seq: n, Str: sk})
+			add(TTHCase{Mode: "enc", Seq: n, Str: sk, Int: []IntKV{{K: 1, V: StrSpec{Lit: []int{}}}}})
+			tok := StrSpec{Lit: []int{}}
+			add(TTHCase{Mode: "enc", Seq: n, Str: sk, ACL: &tok})
+		}
+		var ik []IntKV
+		for i := 0; i < n; i++ {
+			ik = append(ik, IntKV{K: i, V: StrSpec{Lit: []int{}}})
+		}
+		add(TTHCase{Mode: "enc", Seq: n, Int: ik})
+	}
 	// many entries per section (tables, inline arrays and batch paths of a decoder have sizes: walk across them)
 	for _, n := range []int{17, 65, 129, 130} {
 		var sk []StrKV
